@@ -132,10 +132,19 @@ GghrdAccept(n, Aref, Bref, hasQ, hasZ, Hh, T, Q, Z, tau) ==
 (*          m-k-l [ 0     0    0  ]                                          *)
 (* (rows k..m-1 only when m-k-l < 0), A12 (k x k) and B13 (l x l) upper      *)
 (* triangular and non-singular, A23 upper triangular / trapezoidal; k + l is *)
-(* the rank of [A; B] and l the rank of B (for the exact integer instances   *)
-(* of GenSpectral the numerical rank with the documented tola / tolb IS the  *)
-(* exact rank).  AZero / BZero say which entries of the outputs are          *)
-(* structurally zero: they must be EXACTLY zero.                             *)
+(* the EFFECTIVE NUMERICAL rank of [A; B] and l that of B, decided by the     *)
+(* documented thresholds tola / tolb = max(dims) * norm * eps.  For the exact *)
+(* integer instances of GenSpectral a true pivot is many orders above the    *)
+(* threshold, so the numerical rank can never be BELOW the exact one: that is *)
+(* RankOK's claim.  It may be above it: a pivot that is zero in exact        *)
+(* arithmetic is computed as c * eps * norm with an unpredictable c, and the *)
+(* threshold is only max(dims) * eps * norm (quick tier, VERIF_SEED=7: B =    *)
+(* [[3 2 -3],[3 2 -3],[-2 -2 -2]] gives |r33| = 5.329e-15 = tolb to the last *)
+(* bit; which side it falls on depends on the blocking of the QR).  An over- *)
+(* reported rank is therefore accepted, and every other clause is then       *)
+(* evaluated with the returned k and l.  AZero / BZero say which entries of  *)
+(* the outputs are structurally zero: they must be EXACTLY zero.             *)
+RankOK(rkB, rkAB, k, l) == l >= rkB /\ k + l >= rkAB
 AZero(m, n, k, l, i, j) ==
   IF i < k THEN j < n - l - k + i
   ELSE IF i < k + l THEN j < n - l + (i - k)
@@ -149,7 +158,7 @@ GgsvpStruct(m, p, n, k, l, Ao, Bo) ==
   /\ \A i \in 0 .. l - 1 : ~RIsZero(Bo[i][n - l + i])              \* B13 non-singular
 GgsvpAccept(m, p, n, A, B, rkB, rkAB, hasU, hasV, hasQ, U, V, Q, Ao, Bo, k, l, tau) ==
   /\ GgsvpShape(m, p, n, k, l)
-  /\ l = rkB /\ k + l = rkAB
+  /\ RankOK(rkB, rkAB, k, l)
   /\ GgsvpStruct(m, p, n, k, l, Ao, Bo)
   /\ hasU => OrthoOK(U, m, tau)
   /\ hasV => OrthoOK(V, p, tau)
@@ -206,9 +215,9 @@ GgsvdCore(m, p, n, A, B, hasU, hasV, hasQ, U, V, Q, Ao, Bo, alpha, beta, k, l, t
   /\ hasQ => OrthoOK(Q, n, tau)
   /\ Ident(hasU, hasQ, U, A, Q, D1R(m, n, k, l, alpha, R), m, n, tau)
   /\ Ident(hasV, hasQ, V, B, Q, D2R(p, n, k, l, beta, R), p, n, tau)
-\* Dggsvd3: the ranks are part of the claim and iwork sorts alpha
+\* Dggsvd3: the ranks are part of the claim (RankOK) and iwork sorts alpha
 GgsvdAccept(m, p, n, A, B, rkB, rkAB, hasU, hasV, hasQ, U, V, Q, Ao, Bo, alpha, beta, k, l, iw, tau) ==
-  /\ l = rkB /\ k + l = rkAB
+  /\ RankOK(rkB, rkAB, k, l)
   /\ GgsvdCore(m, p, n, A, B, hasU, hasV, hasQ, U, V, Q, Ao, Bo, alpha, beta, k, l, tau)
   /\ SortOK(m, n, k, l, alpha, iw)
 \* Dtgsja: k and l are inputs (A, B already in the form GgsvpStruct), the factors may be
